@@ -12,7 +12,7 @@ import (
 func init() {
 	register("C04", &propDef{
 		Title: "Every symlink left by Unpack resolves inside the destination",
-		Rules: []func(*Checker){ruleC04Guard, ruleC04Accept, ruleC04Lexical, ruleC04Relative("C04.relative"), rulePredSound("C04.pred"), rulePackerWriters("C04.allowlist"), aliasRule(ruleC01Walk, "C01.walk", "C04.placement", 3)},
+		Rules: []func(*Checker){ruleC04Guard, ruleC04Accept, ruleC04Lexical, ruleC04Relative("C04.relative"), rulePredSound("C04.pred"), rulePackerWriters("C04.allowlist"), ruleAllowBase("C04.allowbase"), aliasRule(ruleC01Walk, "C01.walk", "C04.placement", 3)},
 		NotDecided: []string{
 			"physical resolution through other links beyond the necessary condition C04.lexical checks (which entries exist when, chains of links) — a run-time / filesystem fact no sound static rule here decides",
 			"whether the validator distinguishes every spelling of absolute targets (string content)",
@@ -20,7 +20,7 @@ func init() {
 	})
 	register("C05", &propDef{
 		Title: "Pack never leaks outside content and always emits a slug Unpack accepts",
-		Rules: []func(*Checker){ruleC05Link, ruleC05Deref, rulePredSound("C05.pred"), ruleC05Pos, ruleC04Accept2("C05.accept"), rulePackerWriters("C05.allowlist"), ruleC04Relative("C05.relative"),
+		Rules: []func(*Checker){ruleC05Link, ruleC05Deref, rulePredSound("C05.pred"), ruleC05Pos, ruleC04Accept2("C05.accept"), rulePackerWriters("C05.allowlist"), ruleAllowBase("C05.allowbase"), ruleC04Relative("C05.relative"),
 			aliasRuleFiltered(ruleC16Readlink, "C16.readlink", "C05.chain", 1, func(o Oblig) bool { return !strings.Contains(o.Key, "(*slug.Packer).Pack/") })},
 		NotDecided: []string{
 			"content equality of dereferenced copies",
@@ -404,6 +404,151 @@ func ruleC04Accept2(id string) func(*Checker) {
 	}
 }
 
+// C04.allowbase / C05.allowbase — what an allow-list entry is compared as does
+// not depend on the link being judged.
+func ruleAllowBase(id string) func(*Checker) {
+	return func(c *Checker) {
+		c.rule(id, "In the link validator (and its private helpers) a value built from an allow-list entry and compared with the link's target (string equality or strings.HasPrefix) depends on the entry and the validator's root parameter only — never on the position or the target of the link being judged. A relative entry resolved against the link's own directory names a different place for every directory depth: targets the caller never allow-listed are then accepted (and allow-listed ones refused) for links below the top level.", 2)
+		g, _ := linkValidator(c, id)
+		if g == nil {
+			c.anchorMissing(id, "the (bool, error) validator guarding os.Symlink in Unpack")
+			return
+		}
+		p := c.P
+		if len(g.Params) < 3 {
+			c.fail(id, p.FuncName(g), "validator signature", p.Pos(g.Pos()), "the validator does not take (root, position, target)")
+			return
+		}
+		perLink := map[ssa.Value]string{g.Params[len(g.Params)-2]: "position", g.Params[len(g.Params)-1]: "target"}
+		n := 0
+		for _, f := range sortedFuncs(p.family(g)) {
+			depth := 2
+			if f == g {
+				depth = 0
+			}
+			eachInstr(f, func(in ssa.Instruction) {
+				var ops []ssa.Value
+				switch x := in.(type) {
+				case *ssa.BinOp:
+					if (x.Op == token.EQL || x.Op == token.NEQ) && isStringType(x.X.Type()) {
+						ops = []ssa.Value{x.X, x.Y}
+					}
+				case *ssa.Call:
+					if isFunc(calleeObj(x), "strings", "HasPrefix") {
+						ops = x.Call.Args
+					}
+				}
+				for _, op := range ops {
+					sl := p.backSlice(op, depth)
+					fromList := false
+					for w := range sl {
+						if fa, ok := w.(*ssa.FieldAddr); ok && fieldOf(fa) != nil && fieldOf(fa).Name() == "allowSymlinkTargets" {
+							fromList = true
+						}
+					}
+					if !fromList {
+						continue
+					}
+					n++
+					bad := ""
+					for w, what := range perLink {
+						if sl[w] {
+							bad = what
+						}
+					}
+					c.check(bad == "", id, p.FuncName(f), fmt.Sprintf("allow-list operand %d", n), p.Pos(in.Pos()), "built from the entry and the root only", "an allow-list entry is compared in a form that depends on the "+bad+" of the link being judged (a relative entry resolved against the link's directory instead of the root): the same entry allows different places for links at different depths")
+				}
+			})
+		}
+		c.check(n > 0, id, p.FuncName(g), "allow-list comparisons", p.Pos(g.Pos()), fmt.Sprintf("%d comparison operand(s) built from allowSymlinkTargets", n), "no comparison against the allow-list found in the validator")
+	}
+}
+
+// C09.linkprecise / C02.linkprecise — the validator refuses a target that lies
+// inside the root for no other reason than that it climbs out on the way.
+func ruleLinkPrecise(id string) func(*Checker) {
+	return func(c *Checker) {
+		c.rule(id, "Precision of the link validator: from the inside edge of the containment of the cleaned target in the root parameter, every path that does not accept leaves over one of the enumerated refusal edges — the complement of a test of the path from the root (filepath.Rel(root, directory of the link) joined with the target) for \"..\" or the \"../\" prefix, or the error edge of that filepath.Rel. Any other way out (a substring test for \"..\", a length limit) judges ordinary in-tree links external: Pack then fails on them or, with dereferencing on as in WriteArchive, silently ships a copy of the target in place of the link.", 1)
+		g, _ := linkValidator(c, id)
+		if g == nil {
+			c.anchorMissing(id, "the (bool, error) validator guarding os.Symlink in Unpack")
+			return
+		}
+		p := c.P
+		var tgt *ssa.Parameter
+		if n := len(g.Params); n > 0 {
+			tgt = g.Params[n-1]
+		}
+		ks := findContainments(g)
+		stop := map[Edge]bool{}
+		for _, k := range ks {
+			if k.Kind != "reljoin" || tgt == nil || !p.backSlice(k.Subject, 0)[tgt] {
+				continue
+			}
+			for _, grp := range k.Conj {
+				for _, e := range grp {
+					stop[Edge{e.From, 1 - e.Succ}] = true
+				}
+			}
+		}
+		n := 0
+		for _, k := range ks {
+			if k.Kind != "hasprefix" || k.Root == nil || len(k.Conj) == 0 {
+				continue
+			}
+			rooted := false
+			for v := range p.backSlice(k.Root, 0) {
+				if prm, ok := v.(*ssa.Parameter); ok && prm.Parent() == g && isStringType(prm.Type()) && prm != tgt {
+					rooted = true
+				}
+			}
+			for v := range p.backSlice(k.Root, 0) {
+				if u, ok := v.(*ssa.UnOp); ok {
+					if fa, ok := u.X.(*ssa.FieldAddr); ok && fieldOf(fa) != nil && fieldOf(fa).Name() == "allowSymlinkTargets" {
+						rooted = false
+					}
+				}
+			}
+			if !rooted {
+				continue
+			}
+			n++
+			seen := map[*ssa.BasicBlock]bool{}
+			var work []*ssa.BasicBlock
+			for _, e := range k.Conj[0] {
+				work = append(work, e.To())
+			}
+			var bad ssa.Instruction
+			for len(work) > 0 {
+				b := work[len(work)-1]
+				work = work[:len(work)-1]
+				if seen[b] {
+					continue
+				}
+				seen[b] = true
+				if r, ok := b.Instrs[len(b.Instrs)-1].(*ssa.Return); ok {
+					if bv, isC := constBool(r.Results[0]); !(isC && bv) && bad == nil {
+						bad = r
+					}
+					continue
+				}
+				for i, s2 := range b.Succs {
+					if stop[Edge{b, i}] {
+						continue
+					}
+					work = append(work, s2)
+				}
+			}
+			pos := p.Pos(k.At.Pos())
+			if bad != nil {
+				pos = p.Pos(bad.Pos())
+			}
+			c.check(bad == nil, id, p.FuncName(g), fmt.Sprintf("in-root targets refused only for climbing %d", n), pos, fmt.Sprintf("past the inside edge only accepting returns are reachable without crossing one of %d refusal edge(s)", len(stop)), "a target inside the root can fall through to refusal without having been found to climb out of the root (no \"..\" / \"../\" test of the path from the root, and no filepath.Rel error, on the way): ordinary in-tree links — e.g. to a file whose name merely contains two dots — are judged external; Pack fails on them or, with dereferencing on (WriteArchive), replaces the link by a copy of its target without any error")
+		}
+		c.check(n > 0, id, p.FuncName(g), "in-root containment", p.Pos(g.Pos()), fmt.Sprintf("%d containment(s) of the target in the root parameter", n), "no containment of the target in the root parameter found in the validator")
+	}
+}
+
 // rulePackerWriters — Packer fields are written only by option closures and
 // constructors (C04.allowlist, C16.packer).
 func rulePackerWriters(id string) func(*Checker) {
@@ -554,7 +699,7 @@ func ruleC05Deref(c *Checker) {
 		wname := p.FuncName(w.Fn)
 		dT, dF := derefEdges(w.Fn)
 		// the symlink case: blocks guarded by the ModeSymlink test on the walked info
-		symT, _ := condEdges(w.Fn, func(v ssa.Value) bool { return isSymlinkModeTest(v, nil) })
+		symT, _ := symlinkEdges(w.Fn, nil)
 		if len(symT) == 0 {
 			c.fail(R, wname, "symlink case", p.Pos(w.Fn.Pos()), "no ModeSymlink test found in the walk callback")
 			continue
